@@ -301,10 +301,17 @@ var smA, smS = verifx.NewStateMachine(), verifx.NewStateMachine()
 func clone(s string) string { return string(append(make([]byte, 0, len(s)), s...)) }
 
 func native1(f func(s, p, m unsafe.Pointer, flags uint64) int, sm *verifx.StateMachine, in string) string {
+	return nativeFlags(f, sm, in, 0)
+}
+
+// flags = 1<<5: MASK_VALIDATE_STRING (what ConfigStd / ValidateString passes to skip_one)
+const maskValidateString = 1 << 5
+
+func nativeFlags(f func(s, p, m unsafe.Pointer, flags uint64) int, sm *verifx.StateMachine, in string, flags uint64) string {
 	return guard(func() string {
 		s := in
 		p := 0
-		r := f(unsafe.Pointer(&s), unsafe.Pointer(&p), unsafe.Pointer(sm), 0)
+		r := f(unsafe.Pointer(&s), unsafe.Pointer(&p), unsafe.Pointer(sm), flags)
 		return posOf(in, r, p)
 	})
 }
@@ -415,6 +422,10 @@ func runCase(id, kind, in string, heavy bool) []string {
 	add("vs", native1(verifx.SSE.ValidateOne, smS, c))
 	add("sa", native1(verifx.AVX2.SkipOne, smA, c))
 	add("ss", native1(verifx.SSE.SkipOne, smS, c))
+	add("va5", nativeFlags(verifx.AVX2.ValidateOne, smA, c, maskValidateString))
+	add("vs5", nativeFlags(verifx.SSE.ValidateOne, smS, c, maskValidateString))
+	add("sa5", nativeFlags(verifx.AVX2.SkipOne, smA, c, maskValidateString))
+	add("ss5", nativeFlags(verifx.SSE.SkipOne, smS, c, maskValidateString))
 	add("fa", nativeFast(verifx.AVX2.SkipOneFast, c))
 	add("fs", nativeFast(verifx.SSE.SkipOneFast, c))
 
@@ -426,6 +437,7 @@ func runCase(id, kind, in string, heavy bool) []string {
 	add("uraws", guard(func() string { var v []json.RawMessage; return errClass(sonic.UnmarshalString(in, &v)) }))
 	add("umap", guard(func() string { var v map[string]json.RawMessage; return errClass(sonic.UnmarshalString(in, &v)) }))
 	add("uifstd", guard(func() string { var v interface{}; return errClass(sonic.ConfigStd.UnmarshalFromString(in, &v)) }))
+	add("urawstd", guard(func() string { var v json.RawMessage; return errClass(sonic.ConfigStd.UnmarshalFromString(in, &v)) }))
 	add("ubytes", guard(func() string { var v interface{}; return errClass(sonic.Unmarshal([]byte(in), &v)) }))
 	add("dec", guard(func() string {
 		var v interface{}
@@ -489,6 +501,15 @@ func genStringSweep(r *rng.R, maxLen int, add func(kind, doc string)) {
 		add("sweep-str-open", `{"k":"`+body)
 		add("sweep-str", `"`+body+`" x`)
 		add("sweep-str", `"`+body+`"`+rep(" ", L%7))
+		// string contents that only the string-validating scanner (MASK_VALIDATE_STRING) looks at, at offset L:
+		// invalid / truncated / valid escapes, control characters, before and after vector rounds
+		for _, e := range []string{`\x`, `\u12`, `\u00zz`, `\u0041`, `\ud800\udc00`, `\ud800`, `\/`, "\x01", "\\\x01", "\x1f", "\x7f", `\u004`, `\u`, `\`} {
+			t := rep("b", r.Intn(70))
+			add("sweep-str-esc", `"`+body+e+t+`"`)
+			add("sweep-str-esc", `"`+body+e+`"`)
+			add("sweep-str-esc", `["`+body+e+t+`",1]`)
+			add("sweep-str-esc", `"`+body+e+t)
+		}
 		// an escape (or escaped quote / run of backslashes) straddling the position L
 		if L >= 2 {
 			k := 1 + r.Intn(5)
